@@ -703,6 +703,42 @@ func (e *Engine) doCallValues(p *Path, fr *Frame, c *ssa.CallCommon, fnVal Value
 	if ct != nil {
 		ct.Used = true
 	}
+	if ct == nil && e.inInit && len(fn.Blocks) > 0 && strings.HasPrefix(fn.Name(), "init#") && fn.Pkg == e.curFn.Pkg && len(loopsOf(fn)) > 0 {
+		// a user-written init function with loops (filling a table): not executed. Every package-level
+		// variable it mentions (directly or through functions it calls) is excluded from const_global
+		// facts; the variables it does not touch keep their initialiser values.
+		if e.initTainted == nil {
+			e.initTainted = map[*ssa.Global]bool{}
+		}
+		seen := map[*ssa.Function]bool{}
+		var scan func(f *ssa.Function)
+		scan = func(f *ssa.Function) {
+			if f == nil || seen[f] || len(seen) > 200 {
+				return
+			}
+			seen[f] = true
+			for _, b := range f.Blocks {
+				for _, in := range b.Instrs {
+					for _, op := range in.Operands(nil) {
+						switch x := (*op).(type) {
+						case *ssa.Global:
+							e.initTainted[x] = true
+						case *ssa.Function:
+							if x.Pkg == fn.Pkg {
+								scan(x)
+							}
+						}
+					}
+				}
+			}
+			for _, a := range f.AnonFuncs {
+				scan(a)
+			}
+		}
+		scan(fn)
+		e.note("init function %s of %s has loops and is not executed; the %d package variables it mentions are not treated as constants", fn.Name(), fn.Pkg.Pkg.Path(), len(e.initTainted))
+		return nil
+	}
 	if (ct != nil && ct.Inline) || (ct == nil && fn.Parent() != nil && len(fn.Blocks) > 0) || (ct == nil && e.inInit && len(fn.Blocks) > 0 && strings.HasPrefix(fn.Name(), "init#") && fn.Pkg == e.curFn.Pkg) {
 		nf := e.newFrame(fn, args, bind)
 		nf.retDst = dst
